@@ -17,6 +17,11 @@ from . import c01
 
 SYNTAXES = ("der", "uper", "oer", "xer", "cxer")
 DRIVER = ("thread_driver.c", "reflect.c")
+# The race-detector build is unoptimised: at -O1 gcc forwards/eliminates stores to a function-local static
+# that is written and read back in the same call (measured with mutation (b): the race disappears from the
+# binary), whereas a data race is a property of the source (C11 5.1.2.4).  Registered here, no shared file edited.
+build.SAN.setdefault("tsan0", ["-O0", "-g", "-fsanitize=thread"])
+SAN = "tsan0"
 TSAN_ENV = {"TSAN_OPTIONS": "halt_on_error=0:exitcode=66:second_deadlock_stack=1:history_size=4"}
 
 def lean_allowed():
@@ -120,7 +125,7 @@ def drop_alone_crashers(ctx, exe, script, jobs, stats):
 def run_bundle(ctx, m, jobs, seeds, reps, threads, stats):
     """Builds the TSan bundle of module m, runs the script under each yield seed.  Returns list of failures."""
     txt = genmod.module_text(m)
-    b = bundle.Bundle(m["name"], txt, [n for n, _ in m["types"]], driver_sources=DRIVER, san="tsan")
+    b = bundle.Bundle(m["name"], txt, [n for n, _ in m["types"]], driver_sources=DRIVER, san=SAN)
     fails = []
     try:
         try:
@@ -200,8 +205,8 @@ def run(ctx):
     # ---- P leg
     stats = collections.Counter(); stats["gen_mutable"] = []; stats["by_threads"] = collections.Counter()
     if ctx.quick:
-        nb, ntypes, nvals, reps, threads = 2, 8, 4, 2, "2,4,8,16"
-        seeds = [ctx.rng.randrange(1, 1 << 30) for _ in range(2)]
+        nb, ntypes, nvals, reps, threads = 5, 10, 5, 2, "2,4,8,16"
+        seeds = [ctx.rng.randrange(1, 1 << 30) for _ in range(3)]
     else:
         nb, ntypes, nvals, reps, threads = 10, 10, 8, 4, "2,4,8,16"
         seeds = [ctx.rng.randrange(1, 1 << 30) for _ in range(5)]
@@ -255,7 +260,7 @@ def replay(ctx, path):
         trans_globals.translate(); ctx.lean()
         return
     names = re.findall(r"^\s*([A-Z][\w-]*) ::=", r["module"], re.M)
-    b = bundle.Bundle("replay", r["module"], names, driver_sources=DRIVER, san="tsan")
+    b = bundle.Bundle("replay", r["module"], names, driver_sources=DRIVER, san=SAN)
     exe = b.build()
     script = os.path.join(b.dir, "script.txt")
     with open(script, "w") as fh: fh.write("\n".join(r["script"]) + "\n")
